@@ -337,6 +337,38 @@ Fixpoint run (bk : bkind) (st : state) (evs : list ev) : state * option err :=
       end
   end.
 
+(* ---- the two reads of LocalBackend._all_trial_results ------------------------------------------- *)
+(* For every polled trial the backend reads the STATUS first (_read_status: marker files, process
+   state) and the TEXT second (_retrieve_metrics: std.out); the worker may act in between. *)
+Definition w_apply (bk : bkind) (w : wev) (t : tr) : tr :=
+  match w with
+  | Emit _ k => t_emit bk k t
+  | Finish _ => t_finish bk t
+  | Fail _ k => t_fail bk k t
+  end.
+Definition read_trial (mid : list wev) (t : tr) : status * list rep * tr :=
+  let s := status_of t in                                   (* read 1 *)
+  let t1 := fold_left (fun t w => w_apply Generic w t) mid t in   (* the worker acts *)
+  (s, log t1, t1).                                           (* read 2 *)
+(* the other order (text first, status second), for comparison only *)
+Definition read_trial_text_first (mid : list wev) (t : tr) : status * list rep * tr :=
+  let lg := log t in
+  let t1 := fold_left (fun t w => w_apply Generic w t) mid t in
+  (status_of t1, lg, t1).
+
+(* A poll during which workers act between the two reads of their trial: what they write is read
+   (the text is read second), their exit is not seen in this poll (the status was read first). So
+   it is the poll preceded by the writes and followed by the exits ([k] = reports written). *)
+Inductive midw := MEmit (i k : nat) | MFinish (i k : nat) | MFail (i k : nat).
+Definition mid_before (m : midw) : wev :=
+  match m with MEmit i k | MFinish i k | MFail i k => Emit i k end.
+Definition mid_after (m : midw) : list wev :=
+  match m with MEmit _ _ => [] | MFinish i _ => [Finish i] | MFail i _ => [Fail i O] end.
+Definition poll2 (ids : list nat) (mid : list midw) (decs : list (dec * nat)) : list ev :=
+  map (fun m => W (mid_before m)) mid ++ [Poll ids decs] ++ map W (flat_map mid_after mid).
+Definition fetch2 (ids : list nat) (mid : list midw) : list ev :=
+  map (fun m => W (mid_before m)) mid ++ [Fetch ids] ++ map W (flat_map mid_after mid).
+
 (* ---- script based SimulatorBackend._run_job_and_collect_results ---------------------------- *)
 (* The job of a (re)started trial is the training script, run to completion; std.out is appended
    to, [all] = every report std.out holds afterwards (all runs of the trial). The results of the
